@@ -7,7 +7,7 @@ from . import common
 PROP = "C07"
 GROUPS = ("whitespace", "indent", "alignment", "case")
 KQ = ("NL", "W3", "J", "IND3")
-KT = KQ + ('WT', 'IND0', 'W0', 'UP')
+KT = KQ + ('WT', 'IND0', 'UP')
 
 
 class Mon(drivers.Monitor):
